@@ -1041,15 +1041,23 @@ def flat_expansion(ctx: Ctx, rule: str) -> None:
         if isinstance(s, ast.Assign) and len(s.targets) == 1:
             defs.setdefault(ast.unparse(s.targets[0]), []).append(ast.unparse(s.value))
     if ok3:
+        from ..canon import inline_locals
+
         j, net = (e.id for e in loop[0].target.elts)
-        app = [c for s in t_node[0].orelse for c in calls_in(s) if call_name(c) == "append" and ast.unparse(c.func.value) == "test_nodes"]
-        ok3 = (len(app) == 1 and ast.unparse(app[0].args[0]) == "new_node" and defs.get("test_nets") == ["get_nets + parse_nets"]
-               and defs.get("j_prefix") == [f"'b' + str({j}) if {j} > 0 else ''"] and defs.get("node_prefix") == ["prefix + j_prefix"]
-               and defs.get("new_node") == [f"self.parse_node_from_object({net}, {nodep}.params['name'], prefix=node_prefix, params=params)"]
-               and defs.get("new_node.params['object_root']") == [f"{nodep}.params.get('dep_id', {net}.id)"]
-               and isinstance(fn.node.body[-1], ast.Return) and ast.unparse(fn.node.body[-1].value) == "test_nodes")
+        # hoisted / inlined helper locals (j_prefix, node_prefix) do not matter: compare with single-definition locals substituted
+        fi = inline_locals(fn.node, keep={"test_nets", "new_node", "test_nodes"})
+        di = {}
+        for s_ in ast.walk(fi):
+            if isinstance(s_, ast.Assign) and len(s_.targets) == 1:
+                di.setdefault(ast.unparse(s_.targets[0]), []).append(ast.unparse(s_.value))
+        app = [c for t_ in ast.walk(fi) if isinstance(t_, ast.Try) for s_ in t_.orelse for c in calls_in(s_) if call_name(c) == "append" and ast.unparse(c.func.value) == "test_nodes"]
+        ok3 = (len(app) == 1 and ast.unparse(app[0].args[0]) == "new_node" and di.get("test_nets") == ["get_nets + parse_nets"]
+               and di.get("new_node") == [f"self.parse_node_from_object({net}, {nodep}.params['name'], prefix=prefix + ('b' + str({j}) if {j} > 0 else ''), params=params)"]
+               and di.get("new_node.params['object_root']") == [f"{nodep}.params.get('dep_id', {net}.id)"]
+               and isinstance(fi.body[-1], ast.Return) and ast.unparse(fi.body[-1].value) == "test_nodes")
+        defs = di
     ctx.record(rule + "n", "COUNT", PNF, "one node per reused-or-new net variant (prefix + 'b<j>' from the second on), every parsed node is returned; object roots carry the dependent object's id as fingerprint",
-               ok3, {k: defs.get(k) for k in ("test_nets", "j_prefix", "node_prefix", "new_node.params['object_root']")}, "" if ok3 else "the expansion of a flat node per net variant changed (variants lost, mis-prefixed, or object roots without fingerprint)")
+               ok3, {k: defs.get(k) for k in ("test_nets", "new_node", "new_node.params['object_root']")}, "" if ok3 else "the expansion of a flat node per net variant changed (variants lost, mis-prefixed, or object roots without fingerprint)")
     # ---- reuse-or-parse around it
     f2 = ctx.repo.func(GAPF)
     ctx.touch(GAPF)
